@@ -116,8 +116,9 @@ def model_line(job, pair, tb, mode):
         m64, m128 = tb.get("d64_max_precision") or 18, tb.get("d128_max_precision") or 38
         if job.op in ("add", "sub"):
             st = "n" if tb.get("dec_%s_native" % job.op, 1) == 1 else "c"
-            return "decadd %s %s %d %d %d %d %d %s %s" % (st, mode, k, 1 if job.op == "sub" else 0, m64, m128,
-                                                         1 if tb.get("int_to_decimal_pow_i32", 1) == 1 else 0, dec_opnd(job.ta, pair[0]), dec_opnd(job.tb, pair[1]))
+            return "decadd %s %s %d %d %d %d %d %d %s %s" % (st, mode, k, 1 if job.op == "sub" else 0, m64, m128,
+                                                            1 if tb.get("int_to_decimal_pow_i32") == 1 else 0,
+                                                            0 if tb.get("decimal_to_decimal_validates") == 0 else 1, dec_opnd(job.ta, pair[0]), dec_opnd(job.tb, pair[1]))
         st = "n" if tb.get("dec_mul_native", 1) == 1 else "c"
         return "decmul %s %s %d %d %d %s %s" % (st, mode, k, m64, m128, dec_opnd(job.ta, pair[0]), dec_opnd(job.tb, pair[1]))
     raise ValueError(job.kind)
@@ -165,7 +166,7 @@ def real_value(job, cell, schema_t, m, tb):
     return "ok:" + u, notes
 
 
-def finding_id(job, pair, m, real):
+def finding_id(job, pair, m, real, tb):
     """Which known-finding class does this deviating case fall in (None = outside every class)."""
     if job.kind == "int":
         bits, sg = INT_TYPES[job.ta]
@@ -185,10 +186,24 @@ def finding_id(job, pair, m, real):
     if job.kind == "neg":
         return "int-native-overflow" if m["spec"] == "err" else None
     if job.kind == "dec":
-        if job.op in ("add", "sub") and m["ty"] and m["ty"][1] >= 10 and not (job.ta.startswith("dec(") and job.tb.startswith("dec(")):
+        mixed = not (job.ta.startswith("dec(") and job.tb.startswith("dec("))
+        if job.op in ("add", "sub") and mixed and m["ty"] and m["ty"][1] >= 10 and tb.get("int_to_decimal_pow_i32") == 1:
             return "int-to-decimal-scale-pow-i32"
-        if m.get("clamped"):
-            return "dec-addsub-clamped-precision" if job.op in ("add", "sub") else "dec-mul-clamped-precision"
+        if m.get("clamped") and job.op in ("add", "sub"):
+            # narrow shape (C12_dec_addsub_exact_or_error_any_precision): the precision was clamped AND
+            #  (a) a value with more digits than the announced type (the add is not validated), or
+            #  (b) an operand cast to the common type fails although the exact result is representable, or
+            #  (c) Decimal128: the add overflows i128 (panic / wrapped value); the exact result is unrepresentable
+            p_ = m["ty"][0]
+            if real.startswith("ok:") and m["spec"] == "err" and abs(int(real[3:])) >= 10 ** p_:
+                return "dec-addsub-clamped-precision"
+            if real == "err" and m["spec"].startswith("ok:"):
+                return "dec-addsub-clamped-precision"
+            if m["spec"] == "err" and dec_kind(job.ta, job.tb) == 128 and (real == "panic" or real.startswith("ok:")):
+                return "dec-addsub-clamped-precision"
+            return None
+        if m.get("clamped") and job.op == "mul":
+            return "dec-mul-clamped-precision"
         return None
     return None
 
@@ -386,7 +401,7 @@ def run_pair_jobs(jobs, profile, gbin, gmodel, tb, rng, tier, stats):
                 stats["model_unfaithful"].append({"profile": profile, "types": [j.ta, j.tb], "op": j.op, "operands": list(pair),
                                                   "real": realv, "model": m["impl"], "stmts": sql})
             return
-        fid = finding_id(j, pair, m, realv) if realv == m["impl"] else None
+        fid = finding_id(j, pair, m, realv, tb) if realv == m["impl"] else None
         if fid:
             note_known(fid, j, pair, m, realv, sql)
         else:
